@@ -1,1 +1,111 @@
 //! Hooks for property C38.
+//!
+//! Thin public wrappers around the two private reward functions, constructors for the account
+//! structs (they have a private `reserved` field), and re-exports of the store account types
+//! the instruction contexts use. No logic lives here.
+
+use anchor_lang::prelude::*;
+
+pub use gmsol_programs::gmsol_store::accounts::{Store as StoreAccount, UserHeader as UserHeaderAccount};
+
+use crate::{GlobalState, LpTokenController, Position};
+
+pub const SECONDS_PER_YEAR: u128 = crate::SECONDS_PER_YEAR;
+pub const SECONDS_PER_WEEK: u128 = crate::SECONDS_PER_WEEK;
+
+/// Calls the private `compute_time_weighted_apy`.
+pub fn compute_time_weighted_apy(
+    stake_start_time: i64,
+    now: i64,
+    apy_gradient: &[u128; crate::APY_BUCKETS_U8 as usize],
+) -> u128 {
+    crate::compute_time_weighted_apy(stake_start_time, now, apy_gradient)
+}
+
+/// Calls the private `calculate_gt_reward_amount`.
+pub fn calculate_gt_reward_amount(
+    staked_value_usd: u128,
+    duration_seconds: i64,
+    gt_apy_per_sec: u128,
+    inv_cost_integral: u128,
+) -> Result<u64> {
+    crate::calculate_gt_reward_amount(
+        staked_value_usd,
+        duration_seconds,
+        gt_apy_per_sec,
+        inv_cost_integral,
+    )
+}
+
+#[allow(clippy::too_many_arguments)]
+pub fn new_global_state(
+    authority: Pubkey,
+    apy_gradient: [u128; crate::APY_BUCKETS_U8 as usize],
+    min_stake_value: u128,
+    claim_enabled: bool,
+    bump: u8,
+    pricing_staleness_seconds: u32,
+) -> GlobalState {
+    GlobalState {
+        authority,
+        pending_authority: Pubkey::default(),
+        apy_gradient,
+        min_stake_value,
+        claim_enabled,
+        bump,
+        pricing_staleness_seconds,
+        reserved: Vec::new(),
+    }
+}
+
+#[allow(clippy::too_many_arguments)]
+pub fn new_controller(
+    global_state: Pubkey,
+    lp_token_mint: Pubkey,
+    controller_index: u64,
+    total_positions: u64,
+    is_enabled: bool,
+    disabled_at: i64,
+    disabled_cum_inv_cost: u128,
+    bump: u8,
+) -> LpTokenController {
+    LpTokenController {
+        global_state,
+        lp_token_mint,
+        controller_index,
+        total_positions,
+        is_enabled,
+        disabled_at,
+        disabled_cum_inv_cost,
+        bump,
+        reserved: Vec::new(),
+    }
+}
+
+#[allow(clippy::too_many_arguments)]
+pub fn new_position(
+    owner: Pubkey,
+    controller: Pubkey,
+    lp_mint: Pubkey,
+    vault: Pubkey,
+    position_id: u64,
+    staked_amount: u64,
+    staked_value_usd: u128,
+    stake_start_time: i64,
+    cum_inv_cost: u128,
+    bump: u8,
+) -> Position {
+    Position {
+        owner,
+        controller,
+        lp_mint,
+        vault,
+        position_id,
+        staked_amount,
+        staked_value_usd,
+        stake_start_time,
+        cum_inv_cost,
+        bump,
+        reserved: Vec::new(),
+    }
+}
